@@ -12,7 +12,7 @@ ENGINES = [
     dict(name="kani-harnesses", path="/verif/vk/kani_unit.py", serves_properties=["C01", "C02", "C06", "C07", "C08", "C09", "C12"],
          kind_free_text="cargo kani on the real crate; harness files /verif/kani/*_proofs.rs are compiled into the defining modules through cfg(kani) hooks; "
                         "loop-free full-domain harnesses are complete, harnesses with symbolic strings are bounded stand-ins and never counted as proved"),
-    dict(name="verus-units", path="/verif/vk/verus_unit.py", serves_properties=["C01", "C02", "C03", "C05", "C06", "C07", "C08", "C09", "C10", "C12", "C13", "C15", "C16", "C17", "C19", "C20"],
+    dict(name="verus-units", path="/verif/vk/verus_unit.py", serves_properties=["C01", "C02", "C03", "C05", "C06", "C07", "C08", "C09", "C10", "C12", "C13", "C14", "C15", "C16", "C17", "C19", "C20"],
          kind_free_text="mechanical extraction of the real functions (vk/extract.py, rules R1-R8) + contracts/<unit>.vc, discharged by Verus 0.2026.09.13 / Z3; "
                         "every diagnostic is mapped back to a named obligation (function::label)"),
 ]
@@ -166,6 +166,26 @@ CHECKS = {
         level_note="HTTP only: the WebSocket transport streams queued messages and has no reply vector. Sequential: messages pushed by other sessions during "
                    "the request are not modelled. start_http_client's glue (fresh Client per request, join with ';') is not verified. What a command returns or "
                    "queues is not decided here.",
+    ),
+    "C14": dict(
+        engine="verus-units", design_ref="DESIGN.md §18 'C14 contract notes'", technique="deductive verification (Verus/Z3) of per-step traffic contracts on extracted real code (every line handed to another node's link counted on an explicit wire token), plus a machine-checked ranking lemma over those step bounds",
+        text="Per handler step, for all states and member tables, on the real code: the role decision of the replication thread (extracted as a function, rule R10c) hands NOTHING to any "
+             "link when this node is a secondary, at most one wrapped copy per member marked Secoundary (none to a member marked Primary / StartingUp, none to itself) when it is "
+             "the primary, at most one per other member while it is starting up; replicate_message_to_all / replicate_message_to_secoundary / send_message_to_primary (real loops, "
+             "invariants counting the lines against the number of target members visited) hand over exactly those lines and nothing else; the rp handler (real arm) hands exactly "
+             "one acknowledgement `ack <id> <this node>` to the link the copy came over, first, and runs the wrapped command exactly once (ghost call history written by the "
+             "callee's contract); the closures of set / increment forward nothing on the primary and at most one line per member marked Primary elsewhere; the handler of a "
+             "relayed write (`replicate`) forwards nothing; replicate_request puts at most one line per command on the replication channel and none for an acknowledgement or "
+             "a wrapper (unit outbox). Lemma (machine-checked): over ANY sequence of handler steps that respect those bounds the weight forwards*(2s+1) + 2*copies + acks of what "
+             "is in flight strictly decreases, so a client operation accepted by the primary causes at most s copies and s acknowledgements, one accepted by a secondary at "
+             "most one forward more, and with nothing in flight no step is possible - silence until the next client operation. TWO clauses fail on the unchanged tree and "
+             "are open known findings, both reproduced on the real code by the bounded family traffic: on an arbiter database with an arbiter registered at a secondary, a "
+             "conflicting client write is forwarded twice (conflict notice + the write), and a conflicting COPY arriving from the primary makes the secondary forward the "
+             "conflict notice back to the primary.",
+        level_note="The property itself is a statement about several nodes; what is decided here is its per-step half on one node plus the ranking argument over step COUNTS. That the "
+                   "steps of a real cluster are instances of the lemma's step relation (one primary, consistent member tables, every handler covered) is not machine-checked. "
+                   "set_key_value's forwarding behaviour is an assumed contract (by reading; see assumptions). Cluster-management commands (join, leave, elections, replicate-since) "
+                   "are outside the clauses. Sequential semantics; the log counts send attempts.",
     ),
     "C19": dict(
         engine="verus-units", design_ref="DESIGN.md §5 C19", technique="deductive verification (Verus/Z3) of function contracts on extracted real code",
